@@ -282,8 +282,13 @@ func equalGen(r *rand.Rand, n int, tier string, emit func(Case)) {
 	for _, c := range equalKnown() {
 		emit(c)
 	}
-	for i := 0; i < n; i++ {
-		if i%12 == 5 {
+	for i := 0; i < n+bigExtra(n); i++ {
+		big := i >= n // large sizes come last
+		k := i
+		if big {
+			k = 0 // none of the special kinds below
+		}
+		if k%12 == 5 {
 			// clusters of near points: "within t" is not transitive, so the member matching has to backtrack
 			m := 2 + r.Intn(5)
 			t2 := []int{1, 2, 4}[r.Intn(3)]
@@ -304,7 +309,7 @@ func equalGen(r *rand.Rand, n int, tier string, emit func(Case)) {
 			emit(Case{"kind": "tolio", "p": p, "q": q, "t2": t2})
 			continue
 		}
-		if i%12 == 8 {
+		if k%12 == 8 {
 			// a closed walk on a small lattice (successive vertices distinct) and a variant of it
 			N := 2 + r.Intn(3)
 			m := 3 + r.Intn(4)
@@ -345,7 +350,7 @@ func equalGen(r *rand.Rand, n int, tier string, emit func(Case)) {
 			emit(Case{"kind": "curve", "p": p, "q": q})
 			continue
 		}
-		if i%12 == 11 {
+		if k%12 == 11 {
 			m := 2 + r.Intn(4)
 			p, q := []interface{}{}, []interface{}{}
 			t2 := []int{0, 1, 2, 4, 5, 9}[r.Intn(6)]
@@ -361,11 +366,41 @@ func equalGen(r *rand.Rand, n int, tier string, emit func(Case)) {
 			emit(Case{"kind": "tol", "p": p, "q": q, "t2": t2})
 			continue
 		}
-		tg := &treeGen{r: r, finite: true, simple: r.Intn(3) != 0}
+		tg := &treeGen{r: r, finite: true, simple: r.Intn(3) != 0, big: big}
+		if big {
+			// arbitrary values: two of many small integer points would often be equal, and the library's member matching
+			// takes k! steps to refute a bijection among k equal members (the property speaks of up to six)
+			tg.simple = false
+		}
 		base := normalizeTree(tg.tree(0, ctypes[r.Intn(4)], ""))
 		var other T
 		how := ""
-		switch r.Intn(4) {
+		sel := r.Intn(4)
+		if big && r.Intn(3) == 0 {
+			sel = 4
+		}
+		switch sel {
+		case 4:
+			// the same members in different multiplicities: {.., A, A, B} against {.., A, B, B}, B one ulp from A. Equal
+			// as sets, different as multisets - a bijection of members is what IgnoreOrder asks for
+			kind := []string{"MultiPoint", "MultiLineString", "GeometryCollection"}[r.Intn(3)]
+			base = normalizeTree(tg.tree(0, ctypes[r.Intn(4)], kind))
+			c := asList(base["c"])
+			var a, b interface{}
+			for _, k := range r.Perm(len(c)) {
+				if nb, ok := mutateTree(r, c[k]); ok {
+					a, b = c[k], nb
+					break
+				}
+			}
+			if a == nil {
+				other, how = base, "same"
+				break
+			}
+			ca := append(append([]interface{}{}, c...), a, a, b)
+			cb := shuffleList(r, append(append([]interface{}{}, c...), a, b, b))
+			base = T{"t": base["t"], "ct": base["ct"], "c": ca}
+			other, how = T{"t": base["t"], "ct": base["ct"], "c": cb}, "multiset"
 		case 0:
 			other, how = base, "same"
 		case 1:
